@@ -12,7 +12,7 @@ MANIFEST = dict(
          "returned), ExitArg (the body's exception details, or the reason of the rollback), EnterFailureNoBody and "
          "SurfaceCleanup (a single cleanup error reaches the caller as that error, several as a group of exactly "
          "them); every edge is replayed into a real scope whose disposable doubles log every __aenter__/__aexit__ "
-         "call with its arguments, and the state yielded by a disposable is probed inside the body.",
+         "call with its arguments, and the state yielded by a disposable is probed inside the body. Also Again: the same Disposables object goes through a second scope after the first is over, however that ended - every disposable entered and exited exactly once more.",
     technique="TLA+ spec + TLC exhaustive model checking of fault placements and completion orders; edge-complete graph "
               "replay into the implementation through gated disposable doubles",
     design="5/C08")
